@@ -84,10 +84,23 @@ func gen(p *simrt.Tape) any {
 	}
 	// reorg head events landing exactly when the slot's attestation job is due (cancel and re-schedule of a due job)
 	pl.CoincideReorg = p.Bool()
+	// head-root requests that fail during some slots of the storm: a slot without a record of what was signed
+	// over (the pruning of those records must not rely on there being one per slot)
+	// (what such a gap leaves behind only shows once the window of records has moved past it, more than 33 slots
+	// later: these runs are measured one sync committee period later still)
+	if p.Pct(30) {
+		for i, n := 0, p.Range(2, 8); i < n; i++ {
+			pl.RootFailSlots = append(pl.RootFailSlots, stormFrom*spe+uint64(p.Intn((stormUntil-stormFrom+1)*spe)))
+		}
+		pl.HorizonSlots = (epochB+epp+1)*spe + 1
+	}
 	// a secondary node that never answers attestation data requests (and whose client has no timeout of its own):
 	// only the strategy's cancellation ends those requests
 	if pl.DataStrategy != "" && pl.Nodes >= 2 && p.Pct(60) {
-		pl.Faults = map[string][]Outcome{"bn1/AttestationData!": {{Kind: "blackhole"}}}
+		if pl.Faults == nil {
+			pl.Faults = map[string][]Outcome{}
+		}
+		pl.Faults["bn1/AttestationData!"] = []Outcome{{Kind: "blackhole"}}
 	}
 	return pl
 }
@@ -196,11 +209,15 @@ func exec(plan any, sched *simrt.Tape) *sim.Outcome {
 		return out
 	}
 	var a, b *sample
+	lastEpoch := uint64(epochB)
+	if len(pl.RootFailSlots) > 0 {
+		lastEpoch = epochB + pl.EpochsPerPeriod
+	}
 	for i := range samples {
 		if samples[i].epoch == epochA {
 			a = &samples[i]
 		}
-		if samples[i].epoch == epochB {
+		if samples[i].epoch == lastEpoch {
 			b = &samples[i]
 		}
 	}
@@ -220,6 +237,9 @@ func exec(plan any, sched *simrt.Tape) *sim.Outcome {
 		}
 		return strings.Join(l, " ")
 	}
+	if os.Getenv("C20_DEBUG") != "" {
+		fmt.Fprintf(os.Stderr, "C20 fail-slots %v: slotDataRecords %s\n", pl.RootFailSlots, series("synccommitteemessenger.slotDataRecords"))
+	}
 	for _, name := range names {
 		out.Probes["size-compared"]++
 		_ = name
@@ -235,7 +255,7 @@ func exec(plan any, sched *simrt.Tape) *sim.Outcome {
 				sort.Strings(d)
 				extra = "; additional tasks by spawn site: " + strings.Join(d, ", ")
 			}
-			out.Violation = &simrt.Violation{Kind: "C20/growth-" + name, Detail: fmt.Sprintf("%s holds %d entries at the end of epoch %d but held %d at the same phase of the previous sync committee period (epoch %d), with identical duties and no faults since epoch %d; per-epoch series: %s%s", name, b.sizes[name], epochB, a.sizes[name], epochA, stormUntil, series(name), extra)}
+			out.Violation = &simrt.Violation{Kind: "C20/growth-" + name, Detail: fmt.Sprintf("%s holds %d entries at the end of epoch %d but held %d at the same phase of the previous sync committee period (epoch %d), with identical duties and no faults since epoch %d; per-epoch series: %s%s", name, b.sizes[name], lastEpoch, a.sizes[name], epochA, stormUntil, series(name), extra)}
 			return out
 		}
 	}
